@@ -12,6 +12,8 @@ Correspondence (real CLI in-process through click's CliRunner, model = coq/Model
      (module-level caches, stale objects), every output judged for the data stored NOW;
   H. zoomify -r spellings on bases whose ceil(L/256) sits on / next to a progression step (levels vs Model/Zoom.v expand_spec
      and vs a python reading of the documented rule);
+  I. shapes of BED bin tables: uniform interior bins with a shorter / LONGER last bin on the first / a middle / the last chromosome,
+     single-bin chromosomes, one deviating interior bin; records in every part of every last bin; cload pairs and load -f bg2;
   G. names pass: chromosome names that look like numbers / floats / NA tokens / booleans through every text round trip
      (known finding D37: a name equal to a pandas NA token is refused by load / cload pairs, exit 1).
 Property oracle (never calls the code under test for its expected value): a plain-python reading of the
@@ -54,7 +56,10 @@ RULE = ("dump: per cooler (12 quick / 30 thorough small coolers: symmetric+squar
         "inf/hex/sign, dots-dashes-underscores, 180-character names, all mixed), each as the only kind in its files: dump / dump --join / -t bins / -t chroms, "
         "dump|load coo and bg2, hand-written bg2 and pairs files, BINS as BED file and as chromsizes:binsize, stored bin and chromosome tables compared as strings in order; "
         "zoomify -r: 8 (thorough 11) spellings (default, B, n, kB, kN, 2kB, 2kn, explicit and mixed lists, spaces, case) on 5 boundary + 4 control tiny bases (binsize 1, 2, 5) and up to 7 spellings incl. 4DN on 2 "
-        "binsize-1000 bases, genome lengths chosen so that ceil(L/256) is exactly a step of the binary / nice progression, one below, one above, or L a multiple of 256; non-trivial = at least one data row and at least one non-default option / a non-identity column layout; distinct by input hash")
+        "binsize-1000 bases, genome lengths chosen so that ceil(L/256) is exactly a step of the binary / nice progression, one below, one above, or L a multiple of 256; "
+        "bin-table shapes: 13 BED tables (uniform, shorter / longer last bin on first / middle / last chromosome and everywhere, single-bin chromosomes incl. one longer "
+        "than the nominal width, one deviating interior bin, fully variable) x cload pairs and load -f bg2 with records at the first base, one and two nominal widths "
+        "further and the last base of every last bin and at every bin edge; non-trivial = at least one data row and at least one non-default option / a non-identity column layout; distinct by input hash")
 TRUSTED = ["pandas to_csv / read_csv tokenisation are observed through the CLI, not modelled (the model works on tokenised records and on cells)",
            "click option parsing is observed, not modelled"]
 ASSUMPTIONS = ["region -> bin range (region_to_extent) is given to the model as the pair of bin ranges computed by an independent overlap rule (owned by C04)",
@@ -598,7 +603,7 @@ def run_dump(ctx, runner, cli, thorough):
         o = default_opts(); o["columns"] = ["nope"]; opts.append(o)
         o = default_opts(); o["annotate"] = ["nope"]; opts.append(o)
         o = default_opts(); o["balanced"] = True; opts.append(o)
-        nrand = (120 if thorough else 36) if ci >= 2 else (40 if thorough else 12)
+        nrand = (120 if thorough else 22) if ci >= 2 else (40 if thorough else 10)
         for _ in range(nrand):
             opts.append(random_opts(cool, rng, regions))
         jobs += [(ci, o) for o in opts]
@@ -1416,7 +1421,7 @@ def run_cload(ctx, runner, cli, cools, thorough):
     for pi, perm in enumerate(perms):
         ci = pi % len(cools)
         jobs.append(make_job(ci, dict(zip(pos_names, perm)), 4, 0, pi % 2 == 0, pi % 3 != 0, rng.choice([None, 2]), pi % 4 == 0, False))
-    for _ in range(90 if thorough else 24):
+    for _ in range(90 if thorough else 18):
         ci = rng.randrange(len(cools))
         nextra = rng.choice([0, 1, 1, 2])
         ncols = rng.randint(4 + nextra, 8)
@@ -2012,6 +2017,79 @@ def run_zoom_specs(ctx, runner, cli, thorough):
     ctx.extra["zoomify_boundary_cases"] = len(cases)
 
 
+# ============================================================ I. shapes of BED bin tables (uniform interior + odd last bins)
+BIN_SHAPES = [
+    ("uniform-exact", [[10, 10, 10], [10, 10], [10, 10, 10, 10]]),
+    ("shorter-last-first-chrom", [[10, 10, 4], [10, 10], [10, 10, 10]]),
+    ("shorter-last-middle-chrom", [[10, 10], [10, 10, 7], [10, 10, 10]]),
+    ("shorter-last-last-chrom", [[10, 10], [10, 10, 10], [10, 1]]),
+    ("longer-last-first-chrom", [[10, 10, 15], [10, 10, 10, 6]]),
+    ("longer-last-middle-chrom", [[10, 10], [10, 10, 17], [10, 10, 5]]),
+    ("longer-last-last-chrom", [[10, 10], [10, 5], [10, 10, 25]]),
+    ("longer-last-everywhere", [[10, 13], [10, 10, 21], [10, 34]]),
+    ("single-bin-chroms", [[10, 10, 10], [7], [10, 10], [10]]),
+    ("single-long-bin-first", [[30], [10, 10, 3]]),
+    ("single-short-bin-first", [[4], [10, 10, 10]]),
+    ("one-interior-bin-differs", [[10, 12, 10, 10], [10, 10]]),
+    ("fully-variable", [[3, 11, 6], [8, 2, 9]]),
+]
+
+
+def shape_positions(cool):
+    """(chromosome id, zero-based position) anchors: first and last base of every chromosome, and in every LAST bin its first base,
+    the bases one and two nominal bin widths further (when the bin is that long) and its last base; plus every interior bin edge"""
+    out = []
+    for ci, blk in enumerate(cool.blocks):
+        b = blk[0][2] - blk[0][1]
+        _, s_, e = blk[-1]
+        cand = [0, s_, s_ + b - 1, s_ + b, s_ + b + 1, s_ + 2 * b, e - 2, e - 1]
+        for _, bs, be in blk:
+            cand += [bs, be - 1]
+        for pos in cand:
+            if 0 <= pos < e and (ci, pos) not in out:
+                out.append((ci, pos))
+    return out
+
+
+def run_bin_shapes(ctx, runner, cli, thorough):
+    sdir = ctx.tmp / "shapes"
+    sdir.mkdir(exist_ok=True)
+    for tag, widths in BIN_SHAPES:
+        cool = Cool(widths, [(0, 0, 1)], None, True, "shape:" + tag)
+        anchors = shape_positions(cool)
+        m = len(anchors)
+        pairs = [(anchors[i], anchors[(i * 7 + 3) % m]) for i in range(m)] + [(anchors[i], anchors[i]) for i in range(0, m, 3)]
+        # cload pairs (zero-based positions), BINS = the BED file
+        rows = [[cool.names[c1], str(p1), cool.names[c2], str(p2)] for (c1, p1), (c2, p2) in pairs]
+        case = {"kind": "cload-pairs", "cool": cool.spec(), "layout": dict(zip(POS_NAMES, range(4))), "ncols": 4, "zero_based": True, "symm": True,
+                "chunk": None, "header": False, "fields": [], "text": rows, "extras": [], "bins": "bed", "shape": tag, "post": {"bins_table": True}}
+        ctx.case(case, nontrivial=True, kind="shapes:cload")
+        code, ires = impl_cload(runner, cli, cool, case, sdir, "S")
+        bad = oracle_cload(cool, case, code, ires, sdir, "S")
+        if bad:
+            ctx.fail(case, bad, None)
+        # load -f bg2 with the anchors as start positions (every record its own chunk, equal pixels add up)
+        text, seen = [], set()
+        for k, ((c1, p1), (c2, p2)) in enumerate(pairs):
+            key = tuple(sorted((py_bin_of(cool, c1, p1), py_bin_of(cool, c2, p2))))
+            if key in seen:                       # one record per pixel: `load` refuses a pixel repeated inside a chunk
+                continue
+            seen.add(key)
+            text.append([cool.names[c1], str(p1), str(p1 + 1), cool.names[c2], str(p2), str(p2 + 1), str(1 + k % 5)])
+        # the tail anchors of every last bin must survive the de-duplication: put them first in a second file
+        tail = [(a, a) for a in anchors if a[1] == cool.blocks[a[0]][-1][2] - 1]
+        case = {"kind": "load-audit", "cool": cool.spec(), "fmt": "bg2", "one_based": False, "duplex": False, "chunk": None, "fields": [],
+                "symm": True, "text": text, "vn": ["count"], "bins": "bed", "shape": tag, "post": {"bins_table": True}}
+        for txt in (text, [[cool.names[c], str(p), str(p + 1), cool.names[c], str(p), str(p + 1), "3"] for (c, p), _ in tail]):
+            case = dict(case, text=txt)
+            ctx.case(case, nontrivial=True, kind="shapes:load-bg2")
+            code, ires, storage = impl_load(runner, cli, cool, case, sdir, "S")
+            bad = oracle_load(cool, case, code, ires, storage)
+            if bad:
+                ctx.fail(case, bad, None)
+    ctx.extra["bin_table_shapes"] = [t for t, _ in BIN_SHAPES]
+
+
 # ============================================================ run / replay
 def run(ctx):
     from click.testing import CliRunner
@@ -2033,7 +2111,8 @@ def run(ctx):
         run_light(ctx, runner, cli, cools, uris, thorough); tm["light"] = round(time.time() - t0, 1); t0 = time.time()
         run_history(ctx, runner, cli); tm["history"] = round(time.time() - t0, 1); t0 = time.time()
         run_names(ctx, runner, cli, thorough); tm["names"] = round(time.time() - t0, 1); t0 = time.time()
-        run_zoom_specs(ctx, runner, cli, thorough); tm["zoom_specs"] = round(time.time() - t0, 1)
+        run_zoom_specs(ctx, runner, cli, thorough); tm["zoom_specs"] = round(time.time() - t0, 1); t0 = time.time()
+        run_bin_shapes(ctx, runner, cli, thorough); tm["bin_shapes"] = round(time.time() - t0, 1)
         ctx.extra["section_wall_s"] = tm
     finally:
         os.chdir(cwd)
